@@ -43,6 +43,15 @@ type Case struct {
 	Seed    int64 `json:"seed"`
 }
 
+// notIPv4: arguments Add and Remove have to refuse.
+var notIPv4 = []*net.IPNet{
+	{IP: make(net.IP, 16), Mask: net.CIDRMask(0, 128)},                                          // ::/0
+	{IP: net.IP{0xfd, 0, 0, 0, 0, 0, 0, 0, 0, 0, 0, 0, 0, 0, 0, 0}, Mask: net.CIDRMask(8, 128)}, // fd00::/8
+	{IP: net.IP{192, 0, 2, 0}},                                   // no mask
+	{IP: net.IP{192, 0, 2, 0}, Mask: net.IPMask{255, 0, 255, 0}}, // non-contiguous mask
+	{IP: net.IP{192, 0, 2, 0}, Mask: net.CIDRMask(0, 128)},       // 16-byte zero mask
+}
+
 // startWitness runs the other instances (see Case.Witness) until the returned function is called;
 // that function returns a description of the first wrong answer of a witness instance, or "".
 func startWitness(on bool) func() string {
@@ -466,6 +475,21 @@ func runCase(cs Case, st *stats) (key, expected, observed string) {
 				} else {
 					ip = base | (1+uint32(r.Intn(int(fresh))))<<8 | uint32(r.Intn(256))
 				}
+				if cs.Witness && i%9 == 4 {
+					// "config reload" noise: networks that are not IPv4 CIDRs (prefix length 0 among them)
+					// are refused and change nothing - neither this writer's ranges nor the toggler's /0
+					bad := notIPv4[(i/9+w)%len(notIPv4)]
+					var err error
+					if i%2 == 0 {
+						err = f.Add(bad)
+					} else {
+						err = f.Remove(bad)
+					}
+					if err != netutil.ErrInvalidIPv4CIDR {
+						res.key, res.exp, res.ob = "invalid-accepted", fmt.Sprintf("ErrInvalidIPv4CIDR for Add/Remove(%v)", bad), fmt.Sprint(err)
+						return
+					}
+				}
 				p := pfx{ip & mask(ones), ones}
 				rem := r.Intn(3) == 0
 				writesInFlight.Add(1)
@@ -668,7 +692,7 @@ type mon struct{}
 func (mon) Name() string { return "ipfilterconc" }
 
 func (mon) Level(string) (string, string) {
-	return "exploration", "trials: fresh filter with 32 stable /16 ranges; 2 or 4 writers (each owning a disjoint /8, 150..300 seeded Add/Remove ops with nested and repeated prefixes, probing its own range after every op), 2 or 8 readers probing stable addresses (must be true) and never-added addresses (must be false unless the logical interval of the call meets a 0.0.0.0/0 on-interval of the toggler), total adds crossing the 256-entry list→map switch while readers run; afterwards full agreement with the per-writer sequential models. Plus 'switch rounds': the list is filled to exactly 256 entries, then one writer's Add (with a common or a unique prefix length) switches the filter to maps while the other writers remove ranges they added and readers probe; final state compared with the per-writer models (the other writers may also Add at that moment). Plus 'toggle' trials: one writer toggles one range 400 times with short quiet periods while 2-8 watchers look up one fixed address inside it; a lookup that began and ended inside one quiescent period (phase counter read before and after) must report that period's membership. In every second trial and every fourth switch round further filter instances work in the same process at the same time (a long-lived one in map mode, fresh ones filled across their own switch again and again, address space 90/8): each instance must answer by its own history only. Plain at GOMAXPROCS 2/4/16 and under -race (race runs without the logical clock). distinct_nontrivial = distinct trials (configuration, seed) in which lookups overlapped writes"
+	return "exploration", "trials: fresh filter with 32 stable /16 ranges; 2 or 4 writers (each owning a disjoint /8, 150..300 seeded Add/Remove ops with nested and repeated prefixes, probing its own range after every op), 2 or 8 readers probing stable addresses (must be true) and never-added addresses (must be false unless the logical interval of the call meets a 0.0.0.0/0 on-interval of the toggler), total adds crossing the 256-entry list→map switch while readers run; afterwards full agreement with the per-writer sequential models. Plus 'switch rounds': the list is filled to exactly 256 entries, then one writer's Add (with a common or a unique prefix length) switches the filter to maps while the other writers remove ranges they added and readers probe; final state compared with the per-writer models (the other writers may also Add at that moment). Plus 'toggle' trials: one writer toggles one range 400 times with short quiet periods while 2-8 watchers look up one fixed address inside it; a lookup that began and ended inside one quiescent period (phase counter read before and after) must report that period's membership. In every second trial and every fourth switch round further filter instances work in the same process at the same time (a long-lived one in map mode, fresh ones filled across their own switch again and again, address space 90/8): each instance must answer by its own history only; in those trials the writers also feed networks that are not IPv4 CIDRs (::/0, fd00::/8, no mask, non-contiguous mask) which must be refused and change nothing. Plain at GOMAXPROCS 2/4/16 and under -race (race runs without the logical clock). distinct_nontrivial = distinct trials (configuration, seed) in which lookups overlapped writes"
 }
 
 type shardArgs struct {
